@@ -32,10 +32,17 @@ for n in names:
         def one(p):
             c = subprocess.run([str(ROOT / "check"), p], capture_output=True, text=True, cwd=ROOT, env=env, timeout=3600)
             vio = [l for l in c.stdout.split("\n") if l.startswith("VIOLATION")]
-            return p, c.returncode, vio, (c.stdout.strip().split("\n") or [""])[-1]
+            broken = []
+            for v in vio:
+                try:
+                    rp = [w for w in v.split() if w.startswith("replay=")][0][7:]
+                    broken += json.loads(Path(rp).read_text()).get("no_longer_checks", [])
+                except Exception:
+                    pass
+            return p, c.returncode, vio, (c.stdout.strip().split("\n") or [""])[-1], broken
         with ThreadPoolExecutor(jobs) as ex:
             rows = list(ex.map(one, PROPS))
-        bad = {p: {"rc": rc, "violations": vio, "last": last} for p, rc, vio, last in rows if rc or vio}
+        bad = {p: {"rc": rc, "violations": vio, "last": last, "no_longer_checks": broken} for p, rc, vio, last, broken in rows if rc or vio}
         res[n] = {"verdict": "silent on all 20" if not bad else "ALARM", "alarms": bad}
         print(n, "|", res[n]["verdict"], "|", {p: (b["rc"], [v.split()[-1] if v.endswith("found") else "concrete" for v in b["violations"]]) for p, b in bad.items()})
     finally:
